@@ -229,11 +229,47 @@ func rulesTranslate(c *Ctx, r *Report, g *ssa.Global, codon map[[3]int64]int64) 
 		r.undecided("VSA-TR", where, "lookup", c.pos(f.Pos()), "no lookup in codonToAmino found")
 		return
 	}
+	var keyFn *ssa.Function // the helper that builds the key from the codon's slice, if there is one
+	var keyArg ssa.Value    // what Translate passes it
 	if lkSite == nil {
 		lkSite, lkVal = lk, lk
 		keyLd, _ := lk.Index.(*ssa.UnOp)
 		if keyLd != nil && keyLd.Op == token.MUL {
 			buf, _ = keyLd.X.(*ssa.Alloc)
+		}
+		// the key built by a helper of the module from the codon's bytes: codonToAmino[key(src[i:i+3])] — the helper
+		// fills a local 3-byte array from its parameter and every return hands back that array
+		if cl, ok := lk.Index.(*ssa.Call); ok && buf == nil && len(cl.Call.Args) == 1 {
+			if h := cl.Call.StaticCallee(); h != nil && h.Blocks != nil && c.inModule(h) && len(h.Params) == 1 {
+				var cell *ssa.Alloc
+				okRet := true
+				instrs(h, func(in ssa.Instruction) {
+					rt, ok := in.(*ssa.Return)
+					if !ok {
+						return
+					}
+					ops := retOperands(rt)
+					if len(ops) != 1 {
+						okRet = false
+						return
+					}
+					ld, ok := ops[0].(*ssa.UnOp)
+					if !ok || ld.Op != token.MUL {
+						okRet = false
+						return
+					}
+					al, ok := ld.X.(*ssa.Alloc)
+					if !ok || (cell != nil && cell != al) {
+						okRet = false
+						return
+					}
+					cell = al
+				})
+				if okRet && cell != nil {
+					buf, keyFn, keyArg = cell, h, cl.Call.Args[0]
+					r.analysed(fname(h))
+				}
+			}
 		}
 	}
 	if buf == nil {
@@ -266,6 +302,9 @@ func rulesTranslate(c *Ctx, r *Report, g *ssa.Global, codon map[[3]int64]int64) 
 		return
 	}
 	srcSl, _ := cp.Call.Args[1].(*ssa.Slice)
+	if keyFn != nil && cp.Call.Args[1] == ssa.Value(keyFn.Params[0]) {
+		srcSl, _ = keyArg.(*ssa.Slice)
+	}
 	okSrc := false
 	var iphi *ssa.Phi
 	codonCounter := false // the loop counts codons (c = 0, 1, … < len(src)/3) and the position is 3*c
@@ -362,6 +401,16 @@ func rulesTranslate(c *Ctx, r *Report, g *ssa.Global, codon map[[3]int64]int64) 
 	// element fold: all stores into buf[j] are in the element loop (here or in a helper that receives &buf);
 	// compute T over 256 bytes
 	foldFn, foldBuf := f, ssa.Value(buf)
+	if keyFn != nil {
+		foldFn = keyFn
+		// the copy comes first in the helper: what is folded is the codon's bytes
+		for _, st := range storesToBuf {
+			if !instrDominates(cp, st) {
+				r.violated("VSA-TR", where, "codon source", c.pos(st.Pos()), "the key helper stores into the key before it is filled from the codon")
+				return
+			}
+		}
+	}
 	if len(storesToBuf) == 0 {
 		for _, ref := range *buf.Referrers() {
 			if cl, ok := ref.(*ssa.Call); ok {
@@ -856,6 +905,16 @@ func dominatedByLenZero(blk *ssa.BasicBlock, s *symb, lenExpr string) bool {
 		case edge == 0 && (op == token.EQL && k == 0 || op == token.LSS && k == 1 || op == token.LEQ && k == 0):
 			return true
 		case edge == 1 && (op == token.NEQ && k == 0 || op == token.GTR && k == 0 || op == token.GEQ && k == 1):
+			return true
+		}
+	}
+	return false
+}
+
+// isLoopHeader: some predecessor of b is dominated by b (a back edge enters it) — a one-block loop included.
+func isLoopHeader(b *ssa.BasicBlock) bool {
+	for _, p := range b.Preds {
+		if b.Dominates(p) {
 			return true
 		}
 	}
